@@ -22,6 +22,30 @@ fn verif_replay() {
         }
         return;
     }
+    if case["driver"].as_str() == Some("check_eval") {
+        // parse, type-check and evaluate one expression in an empty scope: does the value have the type the checker announced?
+        let src = a["source"].as_str().unwrap_or("").to_string();
+        let r = std::panic::catch_unwind(|| {
+            let v = match crate::parser::parse(&src) { Ok(v) => v, Err(e) => return serde_json::json!({"panicked": false, "parsed": false, "parse_error": format!("{:?}", e).chars().take(120).collect::<String>()}) };
+            let ctx: ScriptContextRef = Default::default();
+            let t = match v.real_type_of(ctx.clone()) { Ok(t) => t, Err(e) => return serde_json::json!({"panicked": false, "parsed": true, "typed": false, "type_error": e.to_string()}) };
+            match v.real_value_of(ctx.clone()) {
+                Err(e) => serde_json::json!({"panicked": false, "parsed": true, "typed": true, "type": t.to_string(), "evaluated": false, "value_type_matches": false, "eval_error": e.to_string()}),
+                Ok(val) => {
+                    let vt = val.real_type_of(ctx.clone());
+                    // structural comparison of the printed types: Type's own == treats Any as a wildcard
+                    let same = vt.as_ref().map(|x| x.to_string() == t.to_string()).unwrap_or(false);
+                    serde_json::json!({"panicked": false, "parsed": true, "typed": true, "type": t.to_string(), "evaluated": true,
+                                       "value": val.to_string(), "value_type": vt.map(|x| x.to_string()).unwrap_or_default(), "value_type_matches": same})
+                }
+            }
+        });
+        match r {
+            Err(_) => println!("VERIF-OUTCOME {}", serde_json::json!({"panicked": true, "source": src})),
+            Ok(o) => println!("VERIF-OUTCOME {}", o),
+        }
+        return;
+    }
     let l: Vec<Type> = a["lhs"].as_array().unwrap().iter().map(|x| ty(x.as_u64().unwrap())).collect();
     let r: Vec<Type> = a["rhs"].as_array().unwrap().iter().map(|x| ty(x.as_u64().unwrap())).collect();
     let res = if a["tuple"].as_bool().unwrap_or(true) { Type::Tuple(l.clone()) == Type::Tuple(r.clone()) } else { l[0] == r[0] };
